@@ -9,6 +9,8 @@ Decided clauses (each a necessary condition, see DESIGN.md §2 C03):
 quick: the two OpenMP executors; thorough: also Specx (a,b,c-captures,d,e) and StarPU through the
 declaration-only stub headers.
 """
+import os
+import re
 import tbf
 import omp
 import stages
@@ -168,6 +170,48 @@ def only_through_stages(facts, ex, res, R="C03.a.same-submissions"):
     return n
 
 
+OMP_DEPEND_TYPES = {"in", "out", "inout", "mutexinoutset", "inoutset", "depobj"}
+
+
+def commute_macro(facts, res, tier, R="C03.f.commute-macro"):
+    """The OpenMP executors write `depend(commute: x)` and define `commute` per OpenMP version.  Whatever it expands to must be a dependence
+    type of that OpenMP version that ORDERS writers (inout, or mutexinoutset from 5.0 on): a misspelt keyword is a syntax error for every
+    compiler that reports that version (clang 14 reports 5.0 by default), `in` would let the accumulating tasks of a block run concurrently.
+    Decided on the preprocessor text of both headers, plus a compile witness of the two executors with clang's default OpenMP version."""
+    import witness
+    n = 0
+    for h in ("src/algorithms/openmp/tbfopenmpalgorithm.hpp", "src/algorithms/openmp/tbfopenmpalgorithmtsm.hpp"):
+        txt = open(os.path.join(tbf.REPO, h)).read()
+        defs = [(m.start(), m.group(1)) for m in re.finditer(r"^[ \t]*#[ \t]*define[ \t]+commute[ \t]+(\w+)", txt, re.M)]
+        if not defs:
+            raise AnalysisBroken("%s: no `#define commute ...` found (confirmed by reading)" % h)
+        for pos, val in defs:
+            n += 1
+            line = txt.count("\n", 0, pos) + 1
+            res.instance(R, "%s:%d" % (h, line), "%s:%d" % (h, line), "commute -> %s" % val)
+            if val not in OMP_DEPEND_TYPES:
+                res.violation(R, h, "<preprocessor>", "commute=%s@%s" % (val, h.split("/")[-1]), line,
+                              "`commute` is defined as `%s`, which is not an OpenMP dependence type (in, out, inout, mutexinoutset, ...): every `depend(commute: ...)` clause of the executor is a syntax error for a compiler that takes this branch (clang 14 reports OpenMP 5.0 = 201811 by default)" % val)
+            elif val not in ("inout", "mutexinoutset"):
+                res.violation(R, h, "<preprocessor>", "commute=%s@%s" % (val, h.split("/")[-1]), line, "`commute` is defined as `%s`, which does not order the tasks that accumulate into the same block" % val)
+    tu = witness.HEADERS + """
+#include "algorithms/openmp/tbfopenmpalgorithm.hpp"
+#include "algorithms/openmp/tbfopenmpalgorithmtsm.hpp"
+#include "kernels/testkernel/tbftestkernel.hpp"
+using RealType = double;
+void witnessOpenmp(const TbfSpacialConfiguration<RealType, 3>& conf, TbfTree<RealType, RealType, 3, long int, 1, std::array<long int,1>, std::array<long int,1>>& tree){
+    TbfOpenmpAlgorithm<RealType, TbfTestKernel<RealType>> algorithm(conf);
+    algorithm.execute(tree);
+}
+"""
+    rc, err = tbf.compile_witness(tu, compiler="clang++", name="c03_openmp_default.cpp", max_errors=4, clang_default_openmp=True)
+    res.instance(R, "clang++ default OpenMP version", "witness:c03_openmp_default", "TbfOpenmpAlgorithm instantiated and executed: rc=%d" % rc)
+    if rc != 0:
+        f, line, msg, _ = witness.first_src_error(err)
+        res.violation(R, f, "<witness c03_openmp_default>", "%s:%d" % (f, line), line, "the OpenMP executor does not compile with clang's default OpenMP version: " + msg[:240])
+    return n
+
+
 def kernels_sized(facts, ex, res, worker_count_call):
     """(d) second half: the per-worker kernel vector is grown to the runtime's worker count in execute()
     before any task is created"""
@@ -276,6 +320,8 @@ def run(res, tier):
         ntasks += omp.check_capture_lifetime(facts, fn, res)
     res.floor("C03.c", ntasks, 14, "omp task directives")
     res.floor("C03.b", nunits, 14, "task units with wrapper calls")
+    res.rule("C03.f the `commute` dependence type of the OpenMP executors expands, in every version branch, to an OpenMP dependence type that orders writers (inout / mutexinoutset); compile witness with clang's default OpenMP version")
+    res.floor("C03.f", commute_macro(facts, res, tier), 4, "`#define commute` branches")
 
     if tier in ("quick", "thorough"):      # the Specx / StarPU executors (declaration stubs) are analysed on every run: the unit tests never compile them, so nothing else would notice a change there
         import c03_runtimes
